@@ -195,7 +195,7 @@ ConsumeLine ==
                              ELSE IF ~must.on
                              THEN (IF prevTimeout THEN {"C11-chord-at-wrong-time"} ELSE IF must.on2 THEN {} ELSE {"C10-unexpected-send"})
                              ELSE IF r.evs = must.evs THEN {}
-                             ELSE IF must.kind = "chord" THEN {IF chordKeyHeld THEN "KNOWN-D4-C11-chord-touches-held-key" ELSE "C11-chord-content"}
+                             ELSE IF must.kind = "chord" THEN {IF chordKeyHeld THEN "C11-chord-touches-held-key" ELSE "C11-chord-content"}
                              ELSE {"C10-wrong-payload-" \o must.kind})
                        \cup Tag(r.evs # <<>> /\ must.kind = "step" /\ afterTab /\ r.evs # must.evs2, "C12-not-fresh-after-tablet-mode")
                        \cup Tag(isChord /\ HeldAfter(held, r.evs) # held, "C11-chord-not-transient")
